@@ -15,10 +15,10 @@ func init() {
 		DesignRef: "DESIGN.md §5 C07",
 		Level: "Decides that the populator opens index, chunk and tombstone readers of EVERY input block (closing all of them on every exit), builds one tombstone-applying, range-trimming series set per input with the output block's [MinTime, MaxTime-1], merges them all, " +
 			"writes the chunks of a series before its index entry (chunk references), propagates every write/iterate error, updates series/chunk/sample statistics for every series it wrote with every chunk encoding classified, and that the vertical chunk merger drops an overlapping chunk without re-encoding only when it is byte-identical to its predecessor.",
-		Note:     "Trusted: go/packages, go/types, go/cfg; rule tables in checker/c07.go.",
-		Covers:   "DefaultBlockPopulator.PopulateBlock, compactChunkIterator.Next (duplicate shortcut), LeveledCompactor.write (empty-block shortcut after the statistics are final).",
-		NotCover: "the merged sample content, ordering of output chunks, the arithmetic of the statistics.",
-		Run:      runC07,
+		Note:           "Trusted: go/packages, go/types, go/cfg; rule tables in checker/c07.go.",
+		Covers:         "DefaultBlockPopulator.PopulateBlock, compactChunkIterator.Next (duplicate shortcut), LeveledCompactor.write (empty-block shortcut after the statistics are final).",
+		NotCover:       "the merged sample content, ordering of output chunks, the arithmetic of the statistics.",
+		Run:            runC07,
 		MinObligations: 30,
 	})
 }
@@ -125,7 +125,9 @@ func runC07(c *eng.Ctx) {
 		"bufIter": "kept for memory re-use; its Intervals are truncated by reset and its Iter is replaced in next()"})
 	{
 		rs := c.Fn("tsdb:populateWithDelGenericSeriesIterator.reset")
-		rs.Has("R5", eng.Node("p.bufIter.Intervals = p.bufIter.Intervals[:0]", func(g *eng.Graph, n ast.Node) bool { return nodeText(n) == "p.bufIter.Intervals = p.bufIter.Intervals[:0]" }), 1)
+		rs.Has("R5", eng.Node("p.bufIter.Intervals = p.bufIter.Intervals[:0]", func(g *eng.Graph, n ast.Node) bool {
+			return nodeText(n) == "p.bufIter.Intervals = p.bufIter.Intervals[:0]"
+		}), 1)
 		for _, t := range []string{"populateWithDelSeriesIterator", "populateWithDelChunkSeriesIterator"} {
 			f := c.Fn("tsdb:" + t + ".reset")
 			f.DomOK("R5", p.Call("tsdb:populateWithDelGenericSeriesIterator.reset"))
